@@ -253,12 +253,12 @@ func RandTx(r *gen.Rand) *types.Transaction {
 	} else {
 		tx.Execer = RandBytes(r, 40)
 	}
-	switch r.Intn(10) {
-	case 0:
+	switch k := r.Intn(40); {
+	case k < 4:
 		tx.Payload = nil
-	case 1:
+	case k < 8:
 		tx.Payload = r.Bytes(r.Range(120, 300)) // 2-byte length varint
-	case 2:
+	case k == 8:
 		tx.Payload = r.Bytes(r.Range(16380, 16390)) // 3-byte length varint edge
 	default:
 		tx.Payload = RandBytes(r, 64)
